@@ -600,6 +600,30 @@ class Analyzer:
                 et[target.value.id] = frozenset(tv)
                 ef[target.value.id] = frozenset(fv)
                 return (et if tv else None), (ef if fv else None)
+            # isinstance(d.get("k"), T): true only if the key is present with a value of type T (None excluded from T)
+            if isinstance(target, ast.Call) and isinstance(target.func, ast.Attribute) and target.func.attr == "get" \
+                    and isinstance(target.func.value, ast.Name) and target.func.value.id in env and len(target.args) in (1, 2) \
+                    and isinstance(target.args[0], ast.Constant) and (len(target.args) == 1 or (
+                        isinstance(target.args[1], ast.Constant) and target.args[1].value is None)):
+                self.ev(target, env)
+                want = set()
+                for n in tn:
+                    want |= PYTYPE_TAGS.get(n, set())
+                name = target.func.value.id
+                key = target.args[0].value
+                if "none" not in want:
+                    tv = set()
+                    for a in env[name]:
+                        if a[0] == "json" and "dict" in a[1]:
+                            kf = keyfact(a, key)
+                            cur = kf[1] if kf else ALLTAGS
+                            if cur & want:
+                                tv.add(with_fact(a, key, "y", cur & want))
+                        else:
+                            tv.add(a)
+                    et = env.cp()
+                    et[name] = frozenset(tv)
+                    return (et if tv else None), env
             self.ev(t, env)
             return env, env
         if isinstance(t, ast.Compare) and len(t.ops) == 1 and isinstance(t.ops[0], (ast.In, ast.NotIn)) and isinstance(t.left, ast.Constant) \
